@@ -145,8 +145,11 @@ func (c *Client) handlePacket(pktx pkts.Packet) error {
 		// the REGISTER packet contains an already registered TopicID.
 		// I suppose the right reaction is to reject the registratin with
 		// `Rejected: invalid topic ID`.
+		// A repeated REGISTER of the same topic with the same TopicID (a
+		// retransmission because our REGACK got lost, or a second message on
+		// a just-registered topic) must be accepted.
 		var returnCode pkts1.ReturnCode
-		if _, ok := c.registeredTopics[string(pkt.TopicName)]; ok {
+		if topicID, ok := c.registeredTopics[string(pkt.TopicName)]; ok && topicID != pkt.TopicID {
 			returnCode = pkts1.RC_INVALID_TOPIC_ID
 		} else {
 			returnCode = pkts1.RC_ACCEPTED
